@@ -18,8 +18,8 @@ import (
 	"container/heap"
 	"errors"
 	"fmt"
+	"github.com/echovault/sugardb/verifhook"
 	"slices"
-	"sync"
 	"time"
 )
 
@@ -33,16 +33,17 @@ type EntryLFU struct {
 type CacheLFU struct {
 	keys    map[string]bool
 	entries []*EntryLFU
-	Mutex   *sync.Mutex // Lock for retrieving count
+	Mutex   *verifhook.Mutex // Lock for retrieving count
 }
 
 func NewCacheLFU() *CacheLFU {
 	cache := CacheLFU{
 		keys:    make(map[string]bool),
 		entries: make([]*EntryLFU, 0),
-		Mutex:   &sync.Mutex{},
+		Mutex:   &verifhook.Mutex{},
 	}
 	heap.Init(&cache)
+	verifhook.NameLock(cache.Mutex, "cache.lfu")
 	return &cache
 }
 
